@@ -471,6 +471,12 @@ impl DefragQueue {
         let frame_index = match frame.header.is_last() {
             // Operation only on the last frame
             true => {
+                // Only the first last frame defines the packet size: a second one must not change
+                // the size after the payload of the first one was copied.
+                if self.final_packet_size.is_some() {
+                    return Err(DefragmentInsertError::Duplicate(frame.header));
+                }
+
                 // If we receive the last frame, we know the final packet size.
                 let final_packet_size = frame.header.frame_offset as usize + frame.fragment.len();
                 self.final_packet_size = Some(final_packet_size);
@@ -564,6 +570,22 @@ impl DefragQueue {
                 ));
             }
 
+            // The last frame continues right after the regular frames: it is neither empty nor
+            // larger than a regular frame. Otherwise the frame count below would not cover the
+            // packet.
+            let last_frame_size = final_packet_size - last_frame_offset as usize;
+            if last_frame_size == 0 || last_frame_size > frame_window_size {
+                self.idle = true;
+                return Err(DefragmentInsertError::InvalidHeaderValue(
+                    FragmentFrameHeader {
+                        stream_offset: self.stream_offset,
+                        frame_offset: last_frame_offset,
+                        flags: FragmentFlags::LAST as u16,
+                    },
+                    "last_frame_size_invalid",
+                ));
+            }
+
             // Only after we have received the last frame, and any middle frame, we know how many
             // frames to expect and the final packet size.
             let expected_frames = final_packet_size.div_ceil(frame_window_size);
@@ -598,6 +620,16 @@ impl DefragQueue {
             && self.received_frames() == expected_frames
         {
             self.idle = true;
+
+            // Frames are counted, not located: make sure the frames received are exactly the
+            // ones below the last frame, so that no stale buffer content is emitted.
+            if !self.has_frames_below(expected_frames - 1) {
+                return Err(DefragmentInsertError::InvalidHeaderValue(
+                    frame.header,
+                    "frame_beyond_last_frame",
+                ));
+            }
+
             let packet_size = self.final_packet_size.unwrap_or(MAX_PACKET_SIZE);
             let packet = PacketRef {
                 stream_offset: self.stream_offset,
@@ -607,6 +639,13 @@ impl DefragQueue {
         }
 
         Ok(None)
+    }
+
+    /// Returns true if all frames with an index below `count` have been received.
+    fn has_frames_below(&self, count: usize) -> bool {
+        (0..count).all(|i| {
+            self.recv_mask[i / BITMASK_ENTRY_BITS] & (1 << (i % BITMASK_ENTRY_BITS)) != 0
+        })
     }
 
     fn received_frames(&self) -> usize {
